@@ -79,30 +79,48 @@ PROFILES = {
 
 
 def extract(repo=None, profile="dev", target_tag="main"):
-    """Return {crate: facts-dict} for the tree at `repo`. Cached per content hash."""
+    """Return {crate: facts-dict} for the tree at `repo`. Cached per content hash.
+    Safe against concurrent checks: a cache entry is touched when used, only entries unused for a
+    while are collected, and a reader that still loses the race extracts again."""
     repo = repo or REPO
     ensure_driver()
     th = tree_hash(repo)
     out = os.path.join(CACHE, "facts", "%s-%s" % (th, profile))
     os.makedirs(os.path.join(CACHE, "facts"), exist_ok=True)
     lock_path = os.path.join(CACHE, "facts", "extract-%s.lock" % target_tag)
-    with open(lock_path, "w") as lk:
-        fcntl.flock(lk, fcntl.LOCK_EX)
-        if not all(os.path.exists(os.path.join(out, c + ".json")) for c in CRATES):
-            _do_extract(repo, profile, target_tag, out)
-            _gc()
-    facts = {}
-    for c in CRATES:
-        with open(os.path.join(out, c + ".json")) as fh:
-            facts[c] = json.load(fh)
-    return facts, th
+    last = None
+    for _attempt in range(3):
+        with open(lock_path, "w") as lk:
+            fcntl.flock(lk, fcntl.LOCK_EX)
+            if not all(os.path.exists(os.path.join(out, c + ".json")) for c in CRATES):
+                _do_extract(repo, profile, target_tag, out)
+                _gc(protect=out)
+            try:
+                os.utime(out, None)
+            except OSError:
+                pass
+        try:
+            facts = {}
+            for c in CRATES:
+                with open(os.path.join(out, c + ".json")) as fh:
+                    facts[c] = json.load(fh)
+            return facts, th
+        except (FileNotFoundError, json.JSONDecodeError) as e:
+            last = e  # collected by a concurrent run between the check and the read: extract again
+    raise RuntimeError("fact cache entry %s kept disappearing: %s" % (out, last))
 
 
-def _gc(keep=6):
+def _gc(keep=12, protect=None, min_age_s=900):
     d = os.path.join(CACHE, "facts")
-    ents = [os.path.join(d, e) for e in os.listdir(d) if os.path.isdir(os.path.join(d, e))]
-    ents.sort(key=lambda p: os.path.getmtime(p), reverse=True)
+    now = time.time()
+    ents = [os.path.join(d, e) for e in os.listdir(d) if os.path.isdir(os.path.join(d, e)) and ".tmp" not in e]
+    ents.sort(key=lambda p: os.path.getmtime(p) if os.path.exists(p) else 0, reverse=True)
     for p in ents[keep:]:
+        try:
+            if p == protect or now - os.path.getmtime(p) < min_age_s:
+                continue
+        except OSError:
+            continue
         shutil.rmtree(p, ignore_errors=True)
 
 
